@@ -69,7 +69,15 @@ def record_dump(gb, m, mode: str):
         if mode == "dumps":
             r = gb.loads(b)
         elif mode == "stream":
-            r = gb.load(io.BytesIO(b))
+            # several records in one stream: each load() consumes exactly one
+            two = io.BytesIO()
+            gb.dump(two, obj)
+            gb.dump(two, obj)
+            two.seek(0)
+            r = gb.load(two)
+            r2 = gb.load(two)
+            if type(r2) is not type(r) or two.read() != b"":
+                raise AssertionError("second record of the stream has another type or bytes are left over")
         else:
             r = gb.loads_internal(b)
         back = ["value", pyval.to_model(r)]
@@ -78,7 +86,7 @@ def record_dump(gb, m, mode: str):
     return {"k": "dump", "v": v, "internal": internal, "out": out, "back": back, "mode": mode}
 
 
-def record_load(gb, inp, cfg, prefix=False, stream=False):
+def record_load(gb, inp, cfg, prefix=False, stream=False, defaults=False):
     global _recording
     install_audit()
     b = bytes(inp)
@@ -88,7 +96,9 @@ def record_load(gb, inp, cfg, prefix=False, stream=False):
         _recording = True
         try:
             try:
-                if stream:
+                if defaults:  # the documented defaults of load() / loads() are (False, False): called without the keyword arguments
+                    r = gb.load(io.BytesIO(b)) if stream else gb.loads(b)
+                elif stream:
                     r = gb.load(io.BytesIO(b), py2str_as_py3str=cfg[0], py3str_as_py2str=cfg[1])
                 else:
                     r = gb.loads(b, py2str_as_py3str=cfg[0], py3str_as_py2str=cfg[1])
@@ -144,7 +154,7 @@ def run_job(job):
         for mode in job.get("modes", ["dumps"]):
             cases.append(record_dump(gb, m, mode))
     for ld in job.get("load", []):
-        cases.append(record_load(gb, ld["inp"], ld["cfg"], ld.get("prefix", False), ld.get("stream", False)))
+        cases.append(record_load(gb, ld["inp"], ld["cfg"], ld.get("prefix", False), ld.get("stream", False), ld.get("defaults", False)))
     return cases
 
 
